@@ -254,6 +254,38 @@ func init() {
 }
 
 // genLife produces one lifetime script; returns it and the head reached.
+// genLifeReal: like genLife, with the fault POINT (first / second node read of the handler) and error KIND of every
+// scripted handler failure chosen at random, runs of 1..4 identical failing rounds, and (BTC) re-organisations that
+// switch the active branch between rounds.
+func genLifeReal(g *G, kind string, k int64, nh int, head int64, maxRounds int) (string, int64) {
+	l, h := genLife(g, kind, k, nh, head, maxRounds, true)
+	if l == "-" {
+		return l, h
+	}
+	branch := 0
+	out := []string{}
+	for _, r := range strings.Split(l, ";") {
+		f := strings.Split(r, ":")
+		if kind == "btc" && f[0] != "E" && f[0] != "F" {
+			if g.Intn(4) == 0 {
+				branch = (branch + 1) % 3
+			}
+			f[0] += "~1~" + itoa(branch)
+		}
+		reps := 1
+		if f[1] != "n" && !strings.HasPrefix(f[1], "p") {
+			f[1] += g.Pick([]string{"a", "b", "b"}) + g.Pick([]string{"g", "t", "t", "w", "u", "n", "c"})
+			if len(f) == 3 {
+				reps = 1 + g.Intn(4)
+			}
+		}
+		for i := 0; i < reps; i++ {
+			out = append(out, strings.Join(f, ":"))
+		}
+	}
+	return strings.Join(out, ";"), h
+}
+
 func genLife(g *G, kind string, k int64, nh int, head int64, maxRounds int, allowCrash bool) (string, int64) {
 	n := g.Intn(maxRounds + 1)
 	rs := []string{}
@@ -398,6 +430,39 @@ func genC05(g *G) {
 			}
 		}
 	}
+	// every error KIND at every fault POINT of every handler, 1..4 failing rounds in a row, then clean rounds
+	for _, kind := range kinds {
+		nh := realStackSize(kind)
+		for idx := 0; idx < nh; idx++ {
+			for _, pt := range []string{"a", "b"} {
+				for _, ek := range []string{"g", "t", "w", "u", "n", "c"} {
+					for reps := 1; reps <= 4; reps++ {
+						if !g.Thorough() && reps == 2 {
+							continue
+						}
+						h := "40"
+						rs := []string{h + ":n:s"}
+						for i := 0; i < reps; i++ {
+							rs = append(rs, h+":"+itoa(idx)+pt+ek+":s")
+						}
+						rs = append(rs, h+":n:s", h+":n:s")
+						g.Emit("lifereal", kind, "1", "2", itoa(nh), "4", "-", "none", "0", strings.Join(rs, ";"))
+					}
+				}
+			}
+		}
+	}
+	// BTC: re-organisations of not yet handled blocks between two scan steps (the active branch changes)
+	for _, sw := range []string{"0,0,1,1", "0,1,1,1", "0,1,2,2", "0,1,0,1", "1,1,0,0"} {
+		for _, conf := range []string{"1", "2"} {
+			b := strings.Split(sw, ",")
+			rs := []string{}
+			for i, br := range b {
+				rs = append(rs, itoa(10+i)+"~1~"+br+":n:s")
+			}
+			g.Emit("lifereal", "btc", conf, "1", "1", "5", "-", "none", "0", strings.Join(rs, ";")+"|"+"20~1~"+b[3]+":n:s;21~1~"+b[3]+":n:s")
+		}
+	}
 	for i := 0; i < g.Count(300, 8000); i++ {
 		kind := kinds[g.Intn(3)]
 		k := int64(1 + g.Intn(5))
@@ -415,7 +480,7 @@ func genC05(g *G) {
 		ls := []string{}
 		for j := 0; j < nl; j++ {
 			var l string
-			l, head = genLife(g, kind, k, nh, head, g.Count(6, 10), true)
+			l, head = genLifeReal(g, kind, k, nh, head, g.Count(6, 10))
 			ls = append(ls, l)
 		}
 		g.Emit("lifereal", kind, "1", itoa64(k), itoa(nh), itoa64(cfgStart), g.Pick([]string{"-", "-", "-", "F"}), stored0, itoa64(head), strings.Join(ls, "|"))
